@@ -1,13 +1,37 @@
-"""MANIFEST.setup_cmd: build the whole Coq development from the files on disk."""
+"""MANIFEST.setup_cmd: build the Coq development for every claimed property from
+the files on disk (full .vo build through coq_makefile; no -vos)."""
+import importlib
+import json
+import os
 import sys
+
 from harness import common as C
 
 
 def main():
+    man = json.load(open(os.path.join(C.VERIF, 'MANIFEST.json')))
+    targets = []
+    for c in man['checks']:
+        pid = c['property_id']
+        targets.append('Properties/%s.vo' % pid)
+        try:
+            mod = importlib.import_module('harness.props.' + pid.lower())
+            targets += list(getattr(mod, 'MODELS', ()))
+        except Exception as e:  # pylint: disable=broad-except
+            print('warning: cannot import harness.props.%s: %r' % (pid.lower(), e))
+    for f in sorted(os.listdir(os.path.join(C.COQ, 'Refuted'))) if os.path.isdir(os.path.join(C.COQ, 'Refuted')) else []:
+        if f.endswith('.v'):
+            targets.append('Refuted/' + f + 'o')
+    targets = sorted(set(targets))
     C.ensure_makefile()
-    rc, out, secs = C.make([], timeout=3600)
+    rc, out, secs = C.make(targets, timeout=3600)
     print(out[-3000:])
-    print('coq build: rc=%d in %.0fs' % (rc, secs))
+    print('coq build of %d targets: rc=%d in %.0fs' % (len(targets), rc, secs))
+    problems = C.hygiene(C.all_coq_sources())
+    if problems:
+        print('hygiene scan (informational here; each check fails closed on its own dependencies):')
+        for p in problems[:20]:
+            print('  ' + p)
     return rc
 
 
